@@ -178,6 +178,10 @@ def units(tier, seed):
             us.append({"kind": "core", "mode": mode, "layout": FULL_LAYOUT, "text": 0, "cvals": [0],
                        "kmin": k, "kmax": k, "part": p, "parts": parts, "seed": seed})
     us.append({"kind": "nocomment", "seed": seed})
+    # size classes (rows far beyond the exhaustive bound) and archives holding several members with one base name
+    for mode in MODES:
+        us.append({"kind": "bigrows", "mode": mode, "seed": seed, "ns": [5001, 12007] if quick else [5001, 12007, 70001]})
+    us.append({"kind": "siblings", "seed": seed})
     return us
 
 
@@ -213,13 +217,29 @@ def nontrivial(case):
     return any(re.search("[:#,]", v) for _, v in case["comment"])
 
 
+def expand_big(case):
+    """size class: a case may carry "bigrows": n instead of explicit values (kept small for the replay file)"""
+    if "bigrows" not in case:
+        return case
+    n = case["bigrows"]
+    cols = [{"name": "flow", "type": "f", "values": [i * 0.25 - 100.0 for i in range(n)]},
+            {"name": "id 2", "type": "i", "values": [i * 7 - 3 for i in range(n)]},
+            {"name": "tag", "type": "t", "values": ["r%d" % i for i in range(n)]}]
+    return dict(case, cols=cols)
+
+
 def check_case(ctx, csv, pd, case):
+    case_in = case
+    case = expand_big(case)
     mode = case["mode"]
     mk = "csv:" + MODE_KEY[mode]
     cols = case["cols"]
     nrow = len(cols[0]["values"])
     comment = {k: v for k, v in case["comment"]}
     nt = nontrivial(case)
+    if "bigrows" in case_in:
+        # report the compact form
+        case = case_in
     ctx.count("mode." + mode)
     ctx.count("format." + case["ff"])
     tmp = tempfile.mkdtemp(prefix="verif-c09-")
@@ -237,7 +257,15 @@ def check_case(ctx, csv, pd, case):
         try:
             if mode == "archive":
                 with zipfile.ZipFile(base / "arc.zip", "w") as arc:
+                    if case.get("siblings"):
+                        # other members with the same base name in other sub-folders, written before and after
+                        sib = pd.DataFrame({"other": [9.5]})
+                        csv.write_csv(sib, "aaa/%s.csv" % stem, {"info": "sibling written before"}, SOURCE, archive=arc, **kw)
                     csv.write_csv(df, fname, comment, SOURCE, archive=arc, **kw)
+                    if case.get("siblings"):
+                        sib = pd.DataFrame({"other": [1.5, 2.5], "more": [3, 4]})
+                        csv.write_csv(sib, "zzz/%s.csv" % stem, {"info": "sibling written after"}, SOURCE, archive=arc, **kw)
+                        csv.write_csv(sib, "%s.csv" % stem, {"info": "sibling at the root"}, SOURCE, archive=arc, **kw)
             else:
                 csv.write_csv(df, fname, comment, SOURCE, compress=(mode != "plain"), **kw)
         except Exception as e:
@@ -349,6 +377,31 @@ def run_unit(unit, ctx):
                     ctx.case(False, sample=case, n=0)
                     first = False
                 check_case(ctx, csv, pd, case)
+        return
+    if unit["kind"] == "bigrows":
+        for n in unit["ns"]:
+            for ff in (FORMATS[0], FORMATS[2]):
+                case = {"mode": unit["mode"], "stem": "x", "bigrows": n, "comment": [[KEYS[0], al["cvals"][0]]],
+                        "ff": ff, "sysinfo": True, "author": None}
+                if first:
+                    ctx.case(False, sample=case, n=0)
+                    first = False
+                ctx.count("bigrows")
+                check_case(ctx, csv, pd, case)
+        return
+    if unit["kind"] == "siblings":
+        for li, layout in enumerate(LAYOUTS):
+            for ti in (range(len(al["texts"])) if "t" in layout else [0]):
+                for ci in range(len(al["cvals"])):
+                    case = build_case("archive", layout, ti, ci, (), al)
+                    if case is None:
+                        continue
+                    case["siblings"] = True
+                    if first:
+                        ctx.case(False, sample=case, n=0)
+                        first = False
+                    ctx.count("archive_with_siblings")
+                    check_case(ctx, csv, pd, case)
         return
     mode, layout, ti = unit["mode"], LAYOUTS[unit["layout"]], unit["text"]
     coords = rest_coords(layout, al)
